@@ -141,8 +141,28 @@ func slotsGen(r *rng, maxops int, w *bufio.Writer) {
 		slotsOffGen(r, maxops, w)
 		return
 	}
+	if r.intn(6) == 0 {
+		// the slot limit itself, for limits that are not allocator size classes (the capacity of the backing array differs
+		// from the configured maximum there): fill to the limit with distinct small packets, go past it, drain some, go on
+		maxSlots := r.pick(5, 7, 11, 13, 15, 19, 22, 23, 25, 27, 30, 31, 40, 50)
+		g := &slotsGenState{r: r, w: w, maxBytes: 4096, base: r.pick(0, 1, 1000)}
+		fmt.Fprintf(w, "! new %d %d\n", maxSlots, 4096)
+		for i := 0; i < maxSlots+3; i++ {
+			g.park(g.seq(), 1+r.intn(2))
+		}
+		for i := 0; i < 4; i++ {
+			g.takeSome()
+		}
+		for i := 0; i < 6; i++ {
+			g.park(g.seq(), 1)
+		}
+		for len(g.parked) > 0 {
+			g.take(g.parked[r.intn(len(g.parked))])
+		}
+		return
+	}
 	maxSlots := r.pick(0, 1, 2, 3, 4, 4, 8, 8, 16, 64)
-	maxBytes := r.pick(0, 1, 2, 4, 8, 8, 16, 16, 24, 32, 64, 64, 256, 1024)
+	maxBytes := r.pick(0, 1, 2, 4, 8, 8, 16, 16, 24, 32, 64, 64, 256, 1024, 1000, 100)
 	g := &slotsGenState{r: r, w: w, maxBytes: maxBytes, base: r.pick(0, 0, 1, -5, 1000, math.MaxInt64-11, math.MinInt64)}
 	fmt.Fprintf(w, "! new %d %d\n", maxSlots, maxBytes)
 	n := 1 + r.intn(maxops)
